@@ -274,7 +274,24 @@ pub fn run_child(case: &Case, root: &Path, scratch: &Path, faults: Option<&str>,
     for (k, v) in env {
         cmd.env(k, v);
     }
-    let out = crate::util::spawn_child(cmd.stdin(Stdio::null()).stdout(Stdio::piped()).stderr(Stdio::piped())).and_then(|c| c.wait_with_output());
+    // the workload normally takes well under a second; a child that is still there after the limit is killed and
+    // reported as "hung" (the callers decide what that means)
+    let limit = std::time::Duration::from_secs(std::env::var("VERIF_CHILD_TIMEOUT_S").ok().and_then(|v| v.parse().ok()).unwrap_or(90));
+    let out = crate::util::spawn_child(cmd.stdin(Stdio::null()).stdout(Stdio::piped()).stderr(Stdio::piped())).and_then(|mut c| {
+        let t0 = std::time::Instant::now();
+        loop {
+            match c.try_wait() {
+                Ok(Some(_)) => return c.wait_with_output(),
+                Ok(None) if t0.elapsed() > limit => {
+                    let _ = c.kill();
+                    let _ = c.wait();
+                    return Err(std::io::Error::new(std::io::ErrorKind::TimedOut, format!("hung: the workload process was still running after {} s and was killed", limit.as_secs())));
+                }
+                Ok(None) => std::thread::sleep(std::time::Duration::from_millis(if t0.elapsed().as_millis() < 200 { 2 } else { 20 })),
+                Err(e) => return Err(e),
+            }
+        }
+    });
     let root_s = root.to_string_lossy().to_string();
     if let Ok(dst) = std::env::var("VERIF_DUMP_TRACE") {
         static N: std::sync::atomic::AtomicU32 = std::sync::atomic::AtomicU32::new(0);
@@ -282,6 +299,7 @@ pub fn run_child(case: &Case, root: &Path, scratch: &Path, faults: Option<&str>,
     }
     let trace = std::fs::read(&log).map(|d| parse_trace(&d, &root_s)).unwrap_or_default();
     match out {
+        Err(e) if e.kind() == std::io::ErrorKind::TimedOut => ChildRun { trace, commits: vec![], failed_writes: vec![], failed_commits: vec![], child_failure: None, status: e.to_string() },
         Err(e) => ChildRun { trace, commits: vec![], failed_writes: vec![], failed_commits: vec![], child_failure: None, status: format!("spawn failed: {e}") },
         Ok(o) => {
             let text = String::from_utf8_lossy(&o.stdout).to_string();
